@@ -118,12 +118,15 @@ func (t rt) RoundTrip(req *http.Request) (*http.Response, error) {
 }
 
 // New starts a controlled attack (duration 0) and waits for the first quiescence.
-func New(workers, maxWorkers uint64) *Ctl {
+func New(workers, maxWorkers uint64, maxFirst bool) *Ctl {
 	c := &Ctl{paceCh: make(chan paceAns), inTr: map[uint64]chan struct{}{}}
-	c.atk = vegeta.NewAttacker(
-		vegeta.Workers(workers), vegeta.MaxWorkers(maxWorkers),
-		vegeta.Client(&http.Client{Transport: rt{c}}),
-	)
+	// the two options may be given in either order
+	opts := []func(*vegeta.Attacker){vegeta.Workers(workers), vegeta.MaxWorkers(maxWorkers)}
+	if maxFirst {
+		opts[0], opts[1] = opts[1], opts[0]
+	}
+	opts = append(opts, vegeta.Client(&http.Client{Transport: rt{c}}))
+	c.atk = vegeta.NewAttacker(opts...)
 	tr := vegeta.Targeter(func(t *vegeta.Target) error {
 		c.mu.Lock()
 		defer c.mu.Unlock()
@@ -287,8 +290,9 @@ func (c *Ctl) SetFail(f bool) {
 	c.mu.Unlock()
 }
 
-func (c *Ctl) TargeterCalls() int { c.mu.Lock(); defer c.mu.Unlock(); return c.tgtCalls }
-func (c *Ctl) HighWater() int     { c.mu.Lock(); defer c.mu.Unlock(); return c.hwm }
+func (c *Ctl) TargeterErrors() int { c.mu.Lock(); defer c.mu.Unlock(); return c.tgtErrored }
+func (c *Ctl) TargeterCalls() int  { c.mu.Lock(); defer c.mu.Unlock(); return c.tgtCalls }
+func (c *Ctl) HighWater() int      { c.mu.Lock(); defer c.mu.Unlock(); return c.hwm }
 func (c *Ctl) PaceArgs() []uint64 {
 	c.mu.Lock()
 	defer c.mu.Unlock()
